@@ -619,10 +619,10 @@ func scanOnlyCallers(P *Program, sp ScanSpec) []*OblResult {
 	found := map[string]bool{}
 	exists := false
 	for fn := range ssautil.AllFunctions(P.SSA) {
-		if CanonName(fn) == callee {
+		if CanonName(fn) == callee || stripTypeArgs(CanonName(fn)) == callee {
 			exists = true
 		}
-		if fn.Synthetic != "" {
+		if fn.Synthetic != "" && !strings.HasPrefix(fn.Synthetic, "instance") {
 			continue // compiler-made wrappers (pointer-receiver thunks, bound methods)
 		}
 		for _, b := range fn.Blocks {
@@ -641,11 +641,11 @@ func scanOnlyCallers(P *Program, sp ScanSpec) []*OblResult {
 				}
 				if f := cc.StaticCallee(); f != nil {
 					n := CanonName(f)
-					if f.Synthetic != "" {
+					if f.Synthetic != "" && !strings.HasPrefix(f.Synthetic, "instance") {
 						n = strings.Replace(n, "(*", "(", 1) // pointer-receiver thunk of a value method
 					}
-					if n == callee {
-						found[CanonName(fn)] = true
+					if n == callee || (!strings.Contains(callee, "[") && stripTypeArgs(n) == callee) {
+						found[stripTypeArgs(CanonName(fn))] = true
 					}
 				}
 			}
@@ -807,3 +807,11 @@ func scanGlobalUsers(P *Program, sp ScanSpec) []*OblResult {
 }
 
 func init() { scanKinds["global_users"] = scanGlobalUsers }
+
+// stripTypeArgs drops the type arguments of a generic instance: "p.(T).M[a.B]" -> "p.(T).M".
+func stripTypeArgs(n string) string {
+	if i := strings.Index(n, "["); i > 0 && strings.HasSuffix(n, "]") {
+		return n[:i]
+	}
+	return n
+}
